@@ -70,7 +70,8 @@ Inductive op :=
 | RemoveHandlers (s : nat)
 | Close (s : nat)
 | Event (r : nat) (k : ekind) (o : nat)
-| Tick (s h : nat).
+| Tick (s h : nat)
+| SubscribeUnknown (r : nat).   (* Resource() for a resource discovery does not know: returns an error *)
 
 (* one entry of sharedEventHandler.handlers *)
 Record hent := mkHe { he_sub : nat; he_id : nat; he_own : bool }.
@@ -213,6 +214,9 @@ Definition step (st : state) (o : op) : sres :=
           let fi := st_inf st i in
           mkRes st (if has_own s h (i_hs fi) then replay s h (i_cache fi) else []) false
       end
+  | SubscribeUnknown _ =>
+      (* clientset.Resource fails before anything is counted or created *)
+      mkRes st [] false
   end.
 
 (* ---- runs ---- *)
@@ -297,6 +301,7 @@ Definition track_step (tr : tracker) (o : op) : tracker :=
   | Close s => mkTr (t_nsub tr) (filter (fun p => negb (Nat.eqb (fst p) s)) (t_open tr)) (t_reg tr) (t_store tr)
   | Event r k o => mkTr (t_nsub tr) (t_open tr) (t_reg tr) (upd (t_store tr) r (fst (cache_apply k o (t_store tr r))))
   | Tick _ _ => tr
+  | SubscribeUnknown _ => tr
   end.
 
 Fixpoint track_from (tr : tracker) (ops : list op) : tracker :=
